@@ -315,6 +315,7 @@ def walk_under(fn_node, decide):
         if isinstance(st, (ast.FunctionDef, ast.AsyncFunctionDef, ast.ClassDef, ast.Pass, ast.Import, ast.ImportFrom, ast.Global, ast.Nonlocal)):
             return [env]
         if isinstance(st, (ast.Break, ast.Continue)):
+            exits.append(("continue" if isinstance(st, ast.Continue) else "break", st, env))
             return []
         if isinstance(st, ast.Assert):
             return [en for en, t in truth(st.test, env) if t]
